@@ -152,7 +152,7 @@ fn lens_event<F: Fam>(out: &mut Out, p: &F::Packet, profile: &str) {
     out.ev(ev);
 }
 
-fn publish_v3(topic_len: usize, payload_len: usize, qos1: bool) -> v3::Packet {
+pub fn publish_v3(topic_len: usize, payload_len: usize, qos1: bool) -> v3::Packet {
     v3::Packet::Publish(v3::Publish {
         dup: false,
         retain: false,
@@ -161,7 +161,7 @@ fn publish_v3(topic_len: usize, payload_len: usize, qos1: bool) -> v3::Packet {
         payload: Bytes::from(vec![0x55u8; payload_len]),
     })
 }
-fn publish_v5(topic_len: usize, payload_len: usize) -> v5::Packet {
+pub fn publish_v5(topic_len: usize, payload_len: usize) -> v5::Packet {
     v5::Packet::Publish(v5::Publish {
         dup: false,
         retain: true,
